@@ -142,7 +142,8 @@ func (di DatabaseInfo) marshal() *proto2.DatabaseInfo {
 	}
 
 	pb.MarkDeleted = proto.Bool(di.MarkDeleted)
-	if di.ShardKey.ShardKey != nil {
+	// a database may carry a sharding type without shard keys: write the shard key whenever any part of it is set
+	if di.ShardKey.ShardKey != nil || di.ShardKey.Type != "" || di.ShardKey.ShardGroup != 0 {
 		pb.ShardKey = di.ShardKey.Marshal()
 	}
 	pb.EnableTagArray = proto.Bool(di.EnableTagArray)
